@@ -38,7 +38,7 @@ def correspondence(pid, tier, seed):
         dist[name] = c['evaluations']
         parts.append(c)
     return dict(ok=not broken, evaluations=ev, nontrivial=nt, samples=parts[0]['samples'][:1], rule=RULE, distribution=dict(families=dist),
-                broken=broken, failing_cases=[])
+                broken=broken, failing_cases=[h for c in parts for h in (c.get('failing_cases') or []) if isinstance(h, dict) and 'scenario' in h][:12])
 
 
 # ------------------------------------------------------------------ metamorphic search
@@ -77,8 +77,10 @@ def search(pid, tier, seed, escalate, hints):
     out, k = [], 0
     cyc = {}
     flavours = ['plain', 'schedule', 'plain', 'stop', 'lock', 'control']
-    for i in range(n):
-        sc = scen.gen_scenario(rng, flavours[i % len(flavours)])
+    hinted = [h['scenario'] for h in (hints or []) if isinstance(h, dict) and 'scenario' in h]
+    todo = [hs for hs in hinted for _ in range(4)]          # the scenarios on which a model and the code disagree, four re-expressions each
+    for i in range(n + len(todo)):
+        sc = copy.deepcopy(todo[i]) if i < len(todo) else scen.gen_scenario(rng, flavours[i % len(flavours)])
         sc2 = walk(rng, copy.deepcopy(sc), cyc)
         sc2['load'] = load_reexpress(rng, sc['load'])
         for op in sc2['ops']:
